@@ -133,7 +133,9 @@ namespace options
 
                 if (!env_value.empty())
                 {
-                    update_value(env_value);
+                    // the environment value is the value, whatever it looks like
+                    dirty_ = true;
+                    value_ = env_value;
 
                     return;
                 }
